@@ -54,6 +54,10 @@ def run(prog, rep, tier):
 
 
 # ------------------------------------------------------------------------------------------ R14.2
+    r6 = rep.rule("R14.6", "an assignment's needs_rpki flag is computed over the complete policy list")
+    check_needs_rpki(prog, r6)
+
+
 def _map_of(fv, t):
     e = Renderer(fv, depth=10, through_names=True).operand(t["args"][0], 10)
     for f in expr_fields(e):
@@ -613,3 +617,61 @@ def _fresh_table_receiver(fv, t):
                         if dn and dn in names:
                             return True
     return False
+
+
+# ------------------------------------------------------------------------------------------ R14.6
+def check_needs_rpki(prog, r):
+    """PolicyAssignment.needs_rpki decides whether the RPKI table is handed to the evaluator at all (without it every
+    Condition::Rpki is false).  Wherever an assignment is assembled, compute_needs_rpki must see the final list: no policy may
+    be appended to the list after the call that computed the flag."""
+    n = 0
+    for k in crate_fns(prog, "rustybgp_table"):
+        nm = prog.ix[k]["name"]
+        if "::tests::" in nm or not any((c["f"].get("name") or "").endswith("PolicyAssignment::compute_needs_rpki") for c in prog.ix[k]["calls"]):
+            continue
+        fv = view(prog, k)
+        from ..inline import _closure_of_local
+        for bi, t in fv.calls(re.compile(r".*PolicyAssignment::compute_needs_rpki$")):
+            n += 1
+            r.analysed(root_name(prog, k))
+            # the list handed in: follow the reference to the Vec local
+            q = t["args"][0].get("c") or t["args"][0].get("m")
+            base = None
+            hops = 0
+            while q is not None and hops < 6:
+                hops += 1
+                ds = [d for d in fv.defs().get(q["l"], []) if d[0] in fv.live]
+                if len(ds) != 1:
+                    break
+                b2, s2, st2 = ds[0]
+                if s2 == "t":
+                    a0 = st2["args"][0] if st2.get("args") else None
+                    q = (a0.get("c") or a0.get("m")) if a0 else None       # Deref::deref(&v)
+                    continue
+                if st2["rv"]["r"] == "ref":
+                    base = st2["rv"]["p"]["l"]
+                    q = {"l": base}
+                    if base in fv.local_name:
+                        break
+                    continue
+                if st2["rv"]["r"] == "use":
+                    q = st2["rv"]["o"].get("c") or st2["rv"]["o"].get("m")
+                    continue
+                break
+            if base is None:
+                r.unanalysable("%s: the list passed to compute_needs_rpki could not be traced" % short(root_name(prog, k)), fv.loc(bi))
+                continue
+            late = []
+            for b3, t3 in fv.calls(re.compile(r".*(Vec::<T(, A)?>::(push|extend_from_slice|append|insert)|Extend::extend|Vec::<T(, A)?>::extend)$")):
+                if b3 not in fv.reach_after(bi):
+                    continue
+                q3 = t3["args"][0].get("c") or t3["args"][0].get("m")
+                for b4, s4, st4 in fv.defs().get(q3["l"], []) if q3 is not None else []:
+                    if s4 != "t" and st4["rv"]["r"] == "ref" and st4["rv"]["p"]["l"] == base:
+                        late.append(b3)
+            if late:
+                r.fail(root_name(prog, k), "needs-rpki-before-list-complete", "compute_needs_rpki runs at line %d but the policy list is still extended afterwards (line %d): the flag ignores those "
+                       "policies, so their Rpki conditions are evaluated without the RPKI table and never match" % (fv.line(bi), fv.line(late[0])), fv.loc(bi))
+            else:
+                r.ok("%s: needs_rpki computed over the final list" % short(root_name(prog, k)))
+    r.floor("compute_needs_rpki call sites", n, 2)
